@@ -754,7 +754,13 @@ func (c *evalCtx) call(n *Node) SV {
 		if strings.HasPrefix(a.Sort, "(Opt ") {
 			s = a.Sort[5 : len(a.Sort)-1]
 		}
-		return SV{T: app("val", a.T), Ty: a.Ty, Sort: s}
+		rt := a.Ty
+		if rt != nil && !a.Opt {
+			if pt, ok := rt.Underlying().(*types.Pointer); ok {
+				rt = pt.Elem()
+			}
+		}
+		return SV{T: app("val", a.T), Ty: rt, Sort: s}
 	case "isSome":
 		a := c.eval(n.Args[0])
 		return SV{T: not(c.isNone(a)), Sort: "Bool"}
@@ -764,6 +770,17 @@ func (c *evalCtx) call(n *Node) SV {
 	case "Some":
 		a := c.eval(n.Args[0])
 		return SV{T: app("Some", a.T), Ty: a.Ty, Opt: true}
+	case "card":
+		a := c.eval(n.Args[0])
+		s := a.Sort
+		if s == "" && a.Ty != nil {
+			s = e.Sort(a.Ty)
+		}
+		if s == "" {
+			panic("card() needs a map")
+		}
+		f := e.DeclFun("card."+sanitize(s), []string{s}, "Int")
+		return SV{T: app(f, a.T), Sort: "Int"}
 	case "arr":
 		a := c.eval(n.Args[0])
 		return SV{T: app("gseq.arr", a.T)}
